@@ -15,6 +15,7 @@ import (
 	"bytes"
 	"context"
 	"encoding/hex"
+	"encoding/json"
 	"errors"
 	"flag"
 	"fmt"
@@ -31,6 +32,7 @@ import (
 	"github.com/v-byte-cpu/sx/command"
 	"github.com/v-byte-cpu/sx/command/log"
 	sxip "github.com/v-byte-cpu/sx/pkg/ip"
+	"github.com/v-byte-cpu/sx/pkg/packet"
 	"github.com/v-byte-cpu/sx/pkg/scan"
 	"github.com/v-byte-cpu/sx/pkg/scan/arp"
 	"github.com/v-byte-cpu/sx/pkg/scan/icmp"
@@ -790,12 +792,52 @@ func chainCase(r *hlib.SplitMix64, gen string) row {
 	ch := make(chan scan.Result)
 	done := make(chan struct{})
 	go func() { lg.LogResults(ctx, ch); close(done) }()
+	// one chain in three: the scan also LOGS ERRORS while it prints results (unreadable frame, send
+	// failure, ...), through the same logger object as the commands do.  Error records belong on the
+	// diagnostic stream; standard output is the ARP cache file of the next command.
+	nerr := 0
+	logErr := func() {
+		if r.Intn(3) == 0 {
+			lg.Error(fmt.Errorf("%s", []string{"read packet: network is down", "send: no buffer space available", "invalid \"frame\" {\"ip\":\"6.6.6.6\"}"}[r.Intn(3)]))
+			nerr++
+		}
+	}
+	withErrors := r.Intn(3) == 0
 	for _, x := range got {
+		if withErrors {
+			logErr()
+		}
 		ch <- x
+	}
+	if withErrors {
+		logErr()
+		rw.Class += "+logged-errors"
 	}
 	close(ch)
 	<-done
 	logged := append([]byte{}, w.b.Bytes()...)
+	if nerr > 0 && rw.Spec == "" {
+		// judged on the implementation alone: standard output holds result records only
+		lines := bytes.Split(bytes.TrimSuffix(logged, []byte{'\n'}), []byte{'\n'})
+		if len(logged) == 0 {
+			lines = nil
+		}
+		for i, ln := range lines {
+			var rec map[string]interface{}
+			hasIP := false
+			if json.Unmarshal(ln, &rec) == nil {
+				_, hasIP = rec["ip"]
+			}
+			if !hasIP || len(lines) != len(got) {
+				rw.Spec = fmt.Sprintf("%d results printed and %d errors logged through the ARP scan's logger: standard output (the ARP cache file of the next command) has %d lines; line %d is not a result record: %s",
+					len(got), nerr, len(lines), i+1, ln)
+				if hasIP {
+					continue
+				}
+				break
+			}
+		}
+	}
 	rw.Logged = hx(logged)
 	// 3. the IP-level scan loads it
 	cache := arp.NewCache()
@@ -882,6 +924,122 @@ func chainCase(r *hlib.SplitMix64, gen string) row {
 		rw.Spec = fmt.Sprintf("%d requests went in, %d came out of the cache stage", nreq, i)
 	}
 	rw.Nontrivial = nrep > 0
+	return rw
+}
+
+// ---------------------------------------------------------------- cache stage -> concurrent packet generators -> frames
+
+type chanGen struct{ reqs []*scan.Request }
+
+func (g *chanGen) GenerateRequests(ctx context.Context, _ *scan.Range) (<-chan *scan.Request, error) {
+	ch := make(chan *scan.Request, 64)
+	go func() {
+		defer close(ch)
+		for _, r := range g.reqs {
+			select {
+			case ch <- r:
+			case <-ctx.Done():
+				return
+			}
+		}
+	}()
+	return ch, nil
+}
+
+// muxCase: many requests for distinct hosts go through the real cache stage (every host has its own MAC in
+// the loaded cache; some hosts are only reachable through the gateway) and then, as in the commands, through
+// ONE real filler shared by the workers of scan.NewPacketMultiGenerator.  Judged on the implementation alone,
+// per produced frame: the Ethernet destination is the MAC the cache/gateway resolution gives for the frame's
+// OWN IPv4 destination.
+func muxCase(r *hlib.SplitMix64, gen string) row {
+	which := 0
+	if p := strings.Split(gen, ":"); len(p) == 3 {
+		which, _ = strconv.Atoi(p[1])
+	}
+	which %= 3
+	name := []string{"tcp", "udp", "icmp"}[which]
+	var filler scan.PacketFiller
+	switch which {
+	case 0:
+		filler = tcp.NewPacketFiller(tcp.WithSYN())
+	case 1:
+		filler = udp.NewPacketFiller()
+	default:
+		filler = icmp.NewPacketFiller(icmp.WithType(8))
+	}
+	workers := 2 + r.Intn(15)
+	n := 2000 + r.Intn(2000)
+	rw := row{T: "mux", Gen: gen, Class: fmt.Sprintf("concurrent-%s-filler", name), Nontrivial: true}
+	macOf := func(i int) net.HardwareAddr {
+		return net.HardwareAddr{2, 0x11, byte(i >> 24), byte(i >> 16), byte(i >> 8), byte(i)}
+	}
+	ipOf := func(i int) net.IP { return net.IP{10, byte(i >> 16), byte(i >> 8), byte(i)} }
+	gw := net.HardwareAddr{2, 0x99, 0x99, 0x99, 0x99, 0x99}
+	var file bytes.Buffer
+	for i := 0; i < n; i++ {
+		if i%7 != 3 { // every seventh host is off-link: gateway
+			fmt.Fprintf(&file, "{\"ip\":%q,\"mac\":%q,\"vendor\":\"\"}\n", ipOf(i).String(), macOf(i).String())
+		}
+	}
+	cache := arp.NewCache()
+	if err := arp.FillCache(cache, bytes.NewReader(file.Bytes())); err != nil {
+		rw.Spec = "cache of generated lines does not load: " + err.Error()
+		return rw
+	}
+	cg := &chanGen{}
+	for i := 0; i < n; i++ {
+		cg.reqs = append(cg.reqs, &scan.Request{SrcIP: net.IP{10, 255, 0, 1}, DstIP: ipOf(i), SrcMAC: []byte{2, 0, 0, 0, 0, 1}, DstPort: uint16(1 + i%65000)})
+	}
+	ctx, cancel := context.WithCancel(context.Background())
+	defer cancel()
+	reqs, err := arp.NewCacheRequestGenerator(cg, gw, cache).GenerateRequests(ctx, &scan.Range{})
+	if err != nil {
+		panic(err)
+	}
+	frames := 0
+	deadline := time.After(30 * time.Second)
+	pkts := scan.NewPacketMultiGenerator(filler, workers).Packets(ctx, reqs)
+	for {
+		var bd *packet.BufferData
+		var ok bool
+		select {
+		case bd, ok = <-pkts:
+		case <-deadline:
+			rw.Spec = "the packet generators do not finish"
+			return rw
+		}
+		if !ok {
+			break
+		}
+		if bd.Err != nil {
+			if rw.Spec == "" {
+				rw.Spec = "a request with a resolvable destination produced an error instead of a frame: " + bd.Err.Error()
+			}
+			continue
+		}
+		b := bd.Buf.Bytes()
+		frames++
+		if len(b) < 34 || rw.Spec != "" {
+			continue
+		}
+		dst := net.IP(b[30:34])
+		i := int(dst[1])<<16 | int(dst[2])<<8 | int(dst[3])
+		want := macOf(i)
+		if i%7 == 3 {
+			want = gw
+		}
+		if !bytes.Equal(b[0:6], want) {
+			other := "another host's MAC"
+			if bytes.Equal(b[0:6], gw) {
+				other = "the gateway MAC"
+			}
+			rw.Spec = fmt.Sprintf("%d requests for distinct hosts through the cache stage and %d workers sharing one %s filler: the frame for %s is addressed to %s (%s); the cache/gateway resolution for that host gives %s",
+				n, workers, name, dst, net.HardwareAddr(b[0:6]), other, want)
+		}
+	}
+	if rw.Spec == "" && frames != n {
+		rw.Spec = fmt.Sprintf("%d requests went in, %d frames came out", n, frames)
+	}
 	return rw
 }
 
@@ -1185,6 +1343,8 @@ func genCase(gen string) row {
 		return chainCase(r, gen)
 	case "gw":
 		return gwCase(r, gen)
+	case "mux":
+		return muxCase(r, gen)
 	case "race":
 		return raceCase(r, gen, 64)
 	case "ipbyte": // ipbyte:<pos>:<value>: the per-byte sweep of the decimal text round trip
@@ -1219,6 +1379,7 @@ func main() {
 	ntext := flag.Int("text", 600, "number of cases per text function")
 	sweep := flag.Bool("sweep", false, "all 256 values of every address byte")
 	race := flag.Int("race", 0, "number of concurrent-reader runs")
+	nmux := flag.Int("mux", 9, "number of cache stage -> concurrent packet generator runs")
 	one := flag.String("replay", "", "replay one case from its generator string")
 	flag.Parse()
 	w := hlib.NewOut(*out)
@@ -1266,6 +1427,10 @@ func main() {
 	}
 	for _, rw := range multiHomedCases() {
 		w.Put(rw)
+	}
+	for i := 0; i < *nmux; i++ {
+		w.Put(genCase(fmt.Sprintf("mux:%d:%d", i%3, derive(*seed, k))))
+		k++
 	}
 	for i := 0; i < 24; i++ {
 		w.Put(genCase(fmt.Sprintf("gw:%d", derive(*seed, k))))
